@@ -222,6 +222,10 @@ def run(ctx):
                 if bad is not None and k < 2:
                     ctx.violation("impl-violation", bad[0], {"pair": [pa, pb], **bad[1]}, found_input=True)
 
+        # ---- LARGE stream (family Q), Python-side oracles only
+        early = next(((wt, b) for wt, b, _, _ in records if wt), None)
+        B.run_large_stream(ctx, scratch, "c05", early=early)
+
         # ---- F9 probes (known finding): directed triangles with >= 137 distinct keys
         for nk in (137, 400):
             f9 = B.canon_triangle(B.mk_triangle(B.gen_f9_triangle(nk)))
@@ -383,6 +387,8 @@ def B_parse(out):
 def replay(ctx, data):
     scratch = B.Scratch(ctx.build)
     try:
+        if "large_params" in data:
+            return B.replay_large(data, scratch)
         if "boundary" in data:
             bad = [b for b in B.boundary_oracle(scratch) if b[1].get("boundary") == data["boundary"]]
             print(f"replaying boundary case {data['boundary']} on {REPO}:", "PROPERTY FAILS: " + bad[0][0] if bad else "holds")
